@@ -68,6 +68,7 @@ def handleIO (line : String) : IO String := do
   | "godefaults" :: rest => godefaultsLine (" ".intercalate rest)
   | "pydefaults" :: rest => pydefaultsLine (" ".intercalate rest)
   | "pyroundtrip" :: rest => pyroundtripLine (" ".intercalate rest)
+  | "c11agree" :: rest => c11agreeLine (" ".intercalate rest)
   | "gobuild" :: rest => gobuildLine (" ".intercalate rest)
   | _ => return handle line
 
